@@ -372,7 +372,7 @@ def check_props(prop_id):
 # source-derived models: tools/py2coq.py translates a few pure functions of the tree under test into MiniPy terms
 # (coq/theories/MiniPy.v); coq/src/Src<Group>Proofs.v / Src<Group>Props.v hold the theorems about the generated terms and are
 # re-compiled against the term generated from the CURRENT source on every run.
-SRC_GROUPS = {"Slice": "slice_list_src", "Band": "bandsample_loop_src", "Fmt": "fmt_consts_src", "FmtShape": "fmt_shape_src"}
+SRC_GROUPS = {"Slice": "slice_list_src", "Band": "bandsample_loop_src", "Fmt": "fmt_consts_src", "FmtShape": "fmt_shape_src", "Names": "chunk_names_src"}
 
 
 def source_derived(sc, group, cases_v=None):
